@@ -145,9 +145,13 @@ def apply_preconditioners(cfg, shape, grad, preconds):
     ablk = np.abs(blk)
     ksum = 2
     for ax in axes:
-      p = np.asarray(preconds[i], F)
+      if isinstance(preconds[i], dict):
+        p, pabs = np.asarray(preconds[i]["D"], F), np.asarray(preconds[i]["Dabs"], F)
+      else:
+        p = np.asarray(preconds[i], F)
+        pabs = np.abs(p)
       blk = np.moveaxis(np.tensordot(p, blk, axes=([0], [ax])), 0, ax)
-      ablk = np.moveaxis(np.tensordot(np.abs(p), ablk, axes=([0], [ax])), 0, ax)
+      ablk = np.moveaxis(np.tensordot(pabs, ablk, axes=([0], [ax])), 0, ax)
       ksum += p.shape[0]
       i += 1
     out[sl] = blk
@@ -264,3 +268,28 @@ def sched_interval(cfg, step, end_steps):
   ratio = lr_at(cfg, step) / lr_at(cfg, 0)
   v = cfg.preconditioning_compute_steps + (1.0 - ratio) * end_steps
   return max(int(v // 10) * 10, 1)
+
+
+def dense_of_stored(pmat, compression_rank):
+  """Dense matrix denoted by a stored preconditioner.
+
+  Square -> itself.  Packed [d, |r|+2] (documented layout: first |r| columns V, column -2 rows 0..|r|-1
+  the inverse-root eigenvalues e, entry [0,-1] the constant c, entry [-1,-2] the has-zeros flag)
+  -> c (I - V V') + V diag(e) V', or the identity when flagged.  Returns {"D", "Dabs", "packed"}.
+  """
+  pmat = np.asarray(pmat, F)
+  d, k = pmat.shape
+  if d == k:
+    return {"D": pmat, "Dabs": np.abs(pmat), "packed": False, "has_zeros": False}
+  r = abs(int(compression_rank))
+  assert k == r + 2, (pmat.shape, compression_rank)
+  V = pmat[:, :r]
+  e = pmat[:r, -2]
+  c = pmat[0, -1]
+  hz = bool(pmat[-1, -2] != 0)
+  if hz:
+    return {"D": np.eye(d), "Dabs": np.eye(d), "packed": True, "has_zeros": True}
+  D = c * (np.eye(d) - V @ V.T) + (V * e) @ V.T
+  aV = np.abs(V)
+  Dabs = abs(c) * (np.eye(d) + aV @ aV.T) + (aV * np.abs(e)) @ aV.T
+  return {"D": D, "Dabs": Dabs * 4.0, "packed": True, "has_zeros": False}
